@@ -139,6 +139,48 @@ def doSkip (container : Bool) (cap : Nat) (sched : List Step) (d : Bytes) (k : N
     | .ub => fin "ub -" r
     | .fuel => fin "fuel -" r
 
+/-! the same drivers over the concrete buffer (recycled capacities `16r7b` / `16r`) -/
+
+def bshowNext (fuel : Nat) (c : BReader) : String × BReader :=
+  match bnextOpt fuel c with
+  | .ok c' (some t) => (showTok t, c')
+  | .ok c' none => ("end", c')
+  | .err c' e => (showErr e, c')
+  | .panic => ("panic", c)
+  | .ub => ("ub", c)
+  | .fuel => ("fuel", c)
+
+def bseek (fuel : Nat) (container : Bool) (k : Nat) : Nat → Nat → BReader → Except (String × BReader) BReader
+  | 0, _, c => .error ("hang -", c)
+  | n + 1, seen, c =>
+    match bnextOpt fuel c with
+    | .ok c' (some t) =>
+      let hit := match container, t with
+        | true, .open_ => true
+        | false, .unquoted _ => true
+        | _, _ => false
+      if hit then (if seen + 1 == k then .ok c' else bseek fuel container k n (seen + 1) c')
+      else bseek fuel container k n seen c'
+    | .ok c' none => .error ("nok end", c')
+    | .err c' e => .error ("nok " ++ showErr e, c')
+    | .panic => .error ("panic -", c)
+    | .ub => .error ("ub -", c)
+    | .fuel => .error ("fuel -", c)
+
+def bdoSkip (container : Bool) (buf : Bytes) (sched : List Step) (d : Bytes) (k : Nat) : String :=
+  let fuel := fuelFor d + 2 * sched.length
+  let c0 := BReader.ofBuffer buf sched d
+  let fin (s : String) (c : BReader) := s!"{s} {c.prior + c.start} {c.src.delivered}"
+  match bseek fuel container k (2 * d.length + 32) 0 c0 with
+  | .error (s, c) => fin s c
+  | .ok c =>
+    match (if container then bskipContainer fuel c else bskipUnquotedValue fuel c) with
+    | .ok c' _ => let (s, c'') := bshowNext fuel c'; fin ("ok " ++ s) c''
+    | .err c' e => fin (showErr e ++ " -") c'
+    | .panic => fin "panic -" c
+    | .ub => fin "ub -" c
+    | .fuel => fin "fuel -" c
+
 def skipTokens (fuel : Nat) : Nat → Reader → Except (String × Reader) Reader
   | 0, r => .ok r
   | n + 1, r =>
@@ -211,13 +253,17 @@ def handle : Handler
       let sched ← parseSched s
       let d ← parseHex h
       let k ← k.toNat?
-      pure (doSkip true cap sched d k)
+      match recycledBuf c with
+      | some buf => if cap == 0 then none else pure (bdoSkip true buf sched d k)
+      | none => pure (doSkip true cap sched d k)
   | ["tskipu", c, s, h, k] => do
       let cap ← parseCap c
       let sched ← parseSched s
       let d ← parseHex h
       let k ← k.toNat?
-      pure (doSkip false cap sched d k)
+      match recycledBuf c with
+      | some buf => if cap == 0 then none else pure (bdoSkip false buf sched d k)
+      | none => pure (doSkip false cap sched d k)
   | ["tbytes", c, s, h, k, n] => do
       let cap ← parseCap c
       let sched ← parseSched s
